@@ -17,6 +17,7 @@ limitations under the License.
 package decryptor
 
 import (
+	"bytes"
 	"context"
 	"fmt"
 
@@ -125,8 +126,6 @@ func (encryptor *HashQuery) OnQuery(ctx context.Context, query mysql.OnQueryObje
 					Type: "binary",
 				},
 			}
-
-			rVal.Type = sqlparser.HexNum
 		}
 
 		// substring(column, 1, <HMAC_size>) = 'value' ===> substring(column, 1, <HMAC_size>) = <HMAC('value')>
@@ -139,6 +138,11 @@ func (encryptor *HashQuery) OnQuery(ctx context.Context, query mysql.OnQueryObje
 		sqlVal, ok := item.Expr.Right.(*sqlparser.SQLVal)
 		if !ok {
 			continue
+		}
+		// the literal was decoded according to its own type; the hash is passed as a hexadecimal number: X'7F..' ===> 0x7F..
+		if sqlVal.Type == sqlparser.HexVal && len(sqlVal.Val) > 0 {
+			sqlVal.Type = sqlparser.HexNum
+			sqlVal.Val = append([]byte("0x"), bytes.ToUpper(sqlVal.Val)...)
 		}
 		placeholderIndex, err := mysql.ParsePlaceholderIndex(sqlVal)
 		if err == encryptor_base.ErrInvalidPlaceholder {
